@@ -12,6 +12,24 @@ fn io_res(r: std::io::Result<()>) -> Value {
     }
 }
 
+fn cause(e: &(dyn std::error::Error + 'static)) -> Value {
+    let mut cur: Option<&(dyn std::error::Error + 'static)> = Some(e);
+    while let Some(x) = cur {
+        if let Some(io) = x.downcast_ref::<std::io::Error>() {
+            return json!({"ok": false, "err": errno_name(io)});
+        }
+        cur = x.source();
+    }
+    json!({"ok": false, "err": "parse", "text": format!("{e:?}").chars().take(160).collect::<String>()})
+}
+
+fn cause_res<E: std::error::Error + 'static>(r: Result<(), E>) -> Value {
+    match r {
+        Ok(()) => json!({"ok": true}),
+        Err(e) => cause(&e),
+    }
+}
+
 pub fn run(case: &Value) -> Value {
     let root = sandbox(&case["id"]);
     build_tree(&root, &case["init"]);
@@ -36,6 +54,25 @@ pub fn run(case: &Value) -> Value {
             Err(libcnb::layer::ReadLayerError::IoError(e)) => json!({"ok": false, "err": errno_name(&e)}),
             Err(libcnb::layer::ReadLayerError::LayerContentMetadataParseError(_)) => json!({"ok": false, "err": "parse"}),
         },
+        // shared::write_layer / replace_layer_types through the hooks (call-level comparison with the regenerated
+        // functions): the I/O cause of a failure is reached through Error::source
+        "write_layer" => {
+            let lcm = libcnb::data::layer_content_metadata::LayerContentMetadata {
+                types: Some(libcnb::data::layer_content_metadata::LayerTypes { launch: true, build: false, cache: true }),
+                metadata: libcnb::generic::GenericMetadata::default(),
+            };
+            match verif_hooks::write_layer(&layers, &name, &lcm) {
+                Ok(()) => json!({"ok": true}),
+                // (this variant does not name its field as the error's source)
+                Err(libcnb::layer::WriteLayerError::WriteLayerMetadataError(inner)) => cause(&inner),
+                Err(e) => cause(&e),
+            }
+        }
+        "replace_types" => cause_res(verif_hooks::replace_layer_types(
+            &layers,
+            &name,
+            libcnb::data::layer_content_metadata::LayerTypes { launch: false, build: true, cache: true },
+        )),
         // the public struct API: an uncached layer request deletes the existing layer and creates it afresh
         "recreate" => {
             let ctx = crate::c01::context(&layers);
